@@ -88,8 +88,17 @@ Definition uniquify_name (cand : string) (names : list string) : string :=
   if str_in cand names then uniquify (S (List.length names)) 2 cand names else cand.
 
 (* ImportManager.__init__ / add_import: sort by (module, not is_from), dedupe by module, unique bound names *)
-Definition import_key_ltb (a b : simport) : bool :=
+(* repaired code: __gin__ feature statements are added first (so they are never re-aliased), then by (module, not is_from) *)
+Definition is_feature_module (m : string) : bool := String.prefix "__gin__." m.
+Definition import_key_ltb_orig (a b : simport) : bool :=
   if String.eqb (i_module a) (i_module b) then i_from a && negb (i_from b) else String.ltb (i_module a) (i_module b).
+Definition import_key_ltb (a b : simport) : bool :=
+  if Bool.eqb (is_feature_module (i_module a)) (is_feature_module (i_module b)) then import_key_ltb_orig a b
+  else is_feature_module (i_module a).
+(* repaired code: under dynamic registration the symbol gin is reserved, hence taken from the start *)
+Definition is_dynamic (imports : list simport) : bool :=
+  existsb (fun i => String.eqb (i_module i) "__gin__.dynamic_registration") imports.
+Definition names0 (imports : list simport) : list string := if is_dynamic imports then ["gin"] else [].
 Definition import_manager (imports : list simport) : list simport :=
   let sorted := sort_stable (fun x => x) import_key_ltb imports in
   let '(out, _, _) :=
@@ -100,9 +109,16 @@ Definition import_manager (imports : list simport) : list simport :=
                  let st' := if String.eqb u (bound_name st) then st
                             else {| i_module := i_module st; i_from := i_from st; i_alias := Some u |} in
                  (out ++ [st'], mods ++ [i_module st], names ++ [bound_name st']))
-              sorted ([], [], []) in
+              sorted ([], [], names0 imports) in
   out.
+(* repaired code: __gin__ feature statements sort first, whatever the other module names are *)
+Definition sorted_key (i : simport) : bool * string := (negb (is_feature_module (i_module i)), i_module i).
+Definition sorted_key_ltb (a b : bool * string) : bool :=
+  if Bool.eqb (fst a) (fst b) then String.ltb (snd a) (snd b) else negb (fst a).     (* false < true *)
 Definition sorted_imports (l : list simport) : list simport :=
+  sort_stable sorted_key sorted_key_ltb l.
+(* the code before the repair *)
+Definition sorted_imports_orig (l : list simport) : list simport :=
   sort_stable (fun x => i_module x) String.ltb l.
 
 (* ---- _config_str ---- *)
